@@ -25,7 +25,7 @@ fn verif_native_macro_witness() {
     std::panic::set_hook(Box::new(|_| {}));
     let mut n = 0;
     let mut bad: Vec<String> = Vec::new();
-    let cases: [(&str, &str, &str); 26] = [
+    let cases: [(&str, &str, &str); 27] = [
         // first matching rule, in textual order
         ("(define-syntax m (syntax-rules () ((m x) 'one) ((m x y) 'two) ((m x ...) 'many)))", "(m 1)", "value one"),
         ("(define-syntax m (syntax-rules () ((m x) 'one) ((m x y) 'two) ((m x ...) 'many)))", "(m 1 2)", "value two"),
@@ -35,6 +35,7 @@ fn verif_native_macro_witness() {
         ("(define-syntax m (syntax-rules () ((m 1) 'first) ((m x) 'second)))", "(m 2)", "value second"),
         // bindings of an earlier rule that failed do not leak into a later rule
         ("(define-syntax m (syntax-rules () ((m a 1) a) ((m b 2) 'second)))", "(m 5 2)", "value second"),
+        ("(define-syntax m (syntax-rules () ((m a 1) a) ((m b 2) 'a)))", "(m 5 2)", "value a"),
         // no rule matches: a syntax error
         ("(define-syntax m (syntax-rules () ((m x) 'one)))", "(m 1 2)", "SyntaxError"),
         ("(define-syntax m (syntax-rules () ((m 1) 'one)))", "(m 2)", "SyntaxError"),
